@@ -2,7 +2,7 @@
    run as a search (which lag n the loop stops at; the translator checks that exactly this n is stored as e_windowsize), stops at the
    FIRST lag n >= 1 with g_W(n) < 0, and at w_max - 1 if there is none -- for every sign pattern of g_W and every w_max >= 2. *)
 From Coq Require Import ZArith QArith List Bool Lia ZifyBool.
-From PV Require Import Base.QAux Obs.Model Py.Prim Py.Lemmas.
+From PV Require Import Base.QAux Obs.Model Obs.Gamma Py.Prim Py.Lemmas.
 From PVG Require Import PyGen.
 Import ListNotations.
 Open Scope Z_scope.
@@ -48,3 +48,31 @@ Qed.
 
 Print Assumptions window_is_the_first_negative_lag.
 Print Assumptions tauexp_window_is_the_first_lag_meeting_the_criterion.
+
+(* ------------------------------------------------------------------ what is stored once the window is found *)
+Open Scope Q_scope.
+Theorem window_tauint_tie (nt : list Q) (n : nat) (N : Z) :
+  (n < List.length nt)%nat ->
+  exists r, gamma_method_window_tauint nt (Z.of_nat n) N = Ok r
+            /\ r == Qred (qnthz nt (Z.of_nat n) * bias (Z.of_nat n) (inject_Z N)).
+Proof.
+  intro H. unfold gamma_method_window_tauint. rewrite (py_index_nat nt n 0) by exact H. cbn [bind].
+  eexists. split; [reflexivity|]. rewrite Qred_correct. unfold bias, qnthz.
+  destruct (Z.of_nat n <? 0)%Z eqn:E; [lia|]. rewrite Nat2Z.id.
+  change (inject_Z 1) with 1. unfold Qdiv.
+  replace (inject_Z (2 * Z.of_nat n + 1)) with (2 * inject_Z (Z.of_nat n) + 1)
+    by (unfold Qplus, Qmult, inject_Z; simpl; f_equal; lia).
+  ring.
+Qed.
+Theorem window_dvalue_sq_tie (tauint : Q) (gamma : list Q) (N : Z) :
+  gamma <> [] ->
+  exists r, gamma_method_window_dvalue_sq tauint gamma N = Ok r
+            /\ r == Qred (2 * tauint * qnthz gamma 0 * (1 + 1 / inject_Z N) / inject_Z N).
+Proof.
+  intro H. unfold gamma_method_window_dvalue_sq.
+  rewrite (py_index_nth gamma 0 0) by (unfold zlen; destruct gamma; [congruence|simpl; lia]). cbn [bind].
+  eexists. split; [reflexivity|]. rewrite Qred_correct. unfold qnthz. cbn [Z.ltb Z.to_nat].
+  change (inject_Z 1) with 1. change (inject_Z 2) with 2. reflexivity.
+Qed.
+Print Assumptions window_tauint_tie.
+Print Assumptions window_dvalue_sq_tie.
